@@ -19,7 +19,7 @@ pub struct GraphCase {
     pub edges: Vec<(u8, u8, u8)>,
     /// 0 unweighted, 1 positive dyadic k/4, 2 non-negative dyadic with zeros, 3 tie-rich {1,2},
     /// 4 positive non-dyadic floats, 5 tiny dyadic (k+1)*2^-40, 6 large dyadic (k+1)*2^30,
-    /// 7 large non-dyadic (hundreds to thousands)
+    /// 7 large non-dyadic (hundreds to thousands), 8 symmetric around one {0.5, 1.5, 0.25, 1.75}
     pub wmode: u8,
     /// when > 0 the fields n / shape / edges are ignored and a sparse graph with this many nodes is
     /// generated procedurally from `big_seed` (ring + 2 chords per node; single-edge, no loops)
@@ -47,16 +47,59 @@ pub fn node_name(i: usize) -> String {
     format!("n{:03}", (i * 37 + 11) % 256)
 }
 
+/// Names made of 'a', 'b' and separator characters, in shortlex order shuffled by a bijection:
+/// "a", "-", "a-b", "b-a-", "a b" ... Concatenating two of them with a separator is ambiguous
+/// ("a" + "-" + "b-a" == "a-b" + "-" + "a"), which is what breaks keys built by string formatting.
+pub fn separator_name(i: usize, sep: char) -> String {
+    let k = (i * 101 + 17) % 363;
+    // k-th non-empty string over a 3-letter alphabet in shortlex order
+    let alphabet = ['a', 'b', sep];
+    let mut len = 1;
+    let mut first = 0;
+    let mut count = 3;
+    while k >= first + count {
+        first += count;
+        count *= 3;
+        len += 1;
+    }
+    let mut r = k - first;
+    let mut chars = vec![' '; len];
+    for p in (0..len).rev() {
+        chars[p] = alphabet[r % 3];
+        r /= 3;
+    }
+    chars.into_iter().collect()
+}
+
+/// the name of node `i` under the naming style selected by the case's `perm` field
+pub fn styled_name(i: usize, perm: u32) -> String {
+    match perm % 8 {
+        5 => separator_name(i, '-'),
+        6 => separator_name(i, ','),
+        7 => separator_name(i, ' '),
+        _ => node_name(i),
+    }
+}
+
 pub fn decode_weight(wmode: u8, r: u8) -> f64 {
     match wmode {
         0 => f64::NAN,
         1 => ((r % 32) as f64 + 1.0) / 4.0,
-        2 => ((r % 8) as f64) / 4.0,
+        2 => {
+            // zeros of both signs: -0.0 is an ordinary zero weight (e.g. -ln(1.0))
+            if r % 16 == 8 {
+                -0.0
+            } else {
+                ((r % 8) as f64) / 4.0
+            }
+        }
         3 => 1.0 + (r % 2) as f64,
         4 => 0.1 + ((r % 64) as f64) * 0.137,
         5 => ((r % 32) as f64 + 1.0) * (2.0f64).powi(-40),
         6 => ((r % 32) as f64 + 1.0) * (2.0f64).powi(30),
-        _ => 100.1 + ((r % 32) as f64) * 101.2,
+        7 => 100.1 + ((r % 32) as f64) * 101.2,
+        // weights symmetric around 1: sums coincide with counts, means with 1
+        _ => [0.5, 1.5, 0.25, 1.75][(r % 4) as usize],
     }
 }
 
@@ -215,7 +258,7 @@ impl GraphCase {
             multi: s.multi,
             loops: s.loops,
             n,
-            names: (0..n).map(node_name).collect(),
+            names: (0..n).map(|i| styled_name(i, self.perm)).collect(),
             order: permutation(self.perm, n),
             edges,
             weighted: self.wmode != 0,
@@ -228,6 +271,7 @@ impl NormGraph {
         SpecBits::kind(self.directed, self.multi, self.loops)
     }
     pub fn build(&self) -> G {
+        crate::model::reset_edge_pool();
         let mut g = G::new(self.spec().to_specs());
         for i in &self.order {
             g.add_node(mk_node(&self.names[*i], Some(*i as i32)));
